@@ -13,6 +13,7 @@ import CookModel.Lemmas.DiagExact
 import CookModel.Lemmas.ExtLawsEvents
 import CookModel.Lemmas.DiagExactComp
 import CookModel.Lemmas.DiagEmptyValue
+import CookModel.Lemmas.DiagAnalysisExact
 /-
   C07  Diagnostics are sound, complete and placed on the offending construct.
 
@@ -924,6 +925,69 @@ theorem C07_reference_checks_cookware (input : Str) (lc : Loc (PCookware α)) (c
 /-! non-vacuity: a definition made outside a step -/
 example : ircDefinedInStep (⟨[], none, none, none, none, ⟨.definition [] false, none⟩, Modifiers.empty⟩ :
     Ingredient (ScalableValue Rat)) = false := rfl
+
+/-! ### Analysis stage: "pushes X only when Y" -/
+
+/-- **`resolve_reference`, exactly.**  From every collector state the function appends EXACTLY the list
+    `refDiags` (a pure function of the modifiers, the existing components, the name and the two modes
+    `[define]` / `[duplicate]`: at most `redundant-new`, or `redundant-ref` followed by one of
+    `ref-conflicting-modifiers` / `reference-not-found`) to the diagnostics and changes nothing else.
+    Consequently, for the three error entries of the catalogue the completeness theorems
+    (`C07_reference_not_found`, `C07_new_and_ref_conflict`, `C07_ref_conflicting_modifiers`) become
+    equivalences:
+    * a diagnostic of kind `reference-not-found` is pushed IFF the component is not `+`, no earlier
+      non-reference component has the name, and it is `&` or the define mode is `steps`; it is then the
+      error labelled with the component's span;
+    * a diagnostic of kind `ref-conflicting-modifiers` is pushed IFF the component is `+&`, or it is not
+      `+`, is treated as a reference (`&`, define mode `steps`, or duplicate mode `reference`), its
+      definition is found at `refTo` and it carries a modifier bit the definition lacks
+      (`refConflictBits ≠ 0`); it is then the error labelled with the modifiers' span. -/
+theorem C07_resolve_reference_exact (env : Env) (container : String) (inherit : Nat)
+    (existing : List (Str × Modifiers)) (name : Str) (mods : Modifiers) (location modLoc : Span) (s : Col α) :
+    (resolveReference env container inherit existing name mods location modLoc s).2.diags.toList =
+      s.diags.toList ++ refDiags env inherit existing name mods location modLoc s.defineMode s.duplicateMode ∧
+    (resolveReference env container inherit existing name mods location modLoc s).2 =
+      { s with diags := (resolveReference env container inherit existing name mods location modLoc s).2.diags } ∧
+    ((∃ d ∈ refDiags env inherit existing name mods location modLoc s.defineMode s.duplicateMode,
+        d.kind = "reference-not-found") ↔
+      (mods.contains Modifiers.NEW = false ∧ sameNameIdx env existing name = none ∧
+        (mods.contains Modifiers.REF = true ∨ s.defineMode = .steps))) ∧
+    ((∃ d ∈ refDiags env inherit existing name mods location modLoc s.defineMode s.duplicateMode,
+        d.kind = "ref-conflicting-modifiers") ↔
+      ((mods.contains Modifiers.NEW = true ∧ mods.contains Modifiers.REF = true) ∨
+       (mods.contains Modifiers.NEW = false ∧
+        (mods.contains Modifiers.REF = true ∨ s.defineMode = .steps ∨ s.duplicateMode = .reference) ∧
+        ∃ refTo, sameNameIdx env existing name = some refTo ∧
+          refConflictBits mods ⟨(((existing[refTo]?).map (·.2)).getD Modifiers.empty).bits &&& inherit⟩ ≠ 0))) ∧
+    (∀ d ∈ refDiags env inherit existing name mods location modLoc s.defineMode s.duplicateMode,
+      (d.kind = "reference-not-found" → d = ⟨.error, .analysis, "reference-not-found", [location]⟩) ∧
+      (d.kind = "ref-conflicting-modifiers" → d = ⟨.error, .analysis, "ref-conflicting-modifiers", [modLoc]⟩)) := by
+  obtain ⟨h1, h2⟩ := c07a_resolveReference_exact env container inherit existing name mods location modLoc s
+  obtain ⟨k1, k2, k3⟩ := c07a_refDiags_kinds env inherit existing name mods location modLoc s.defineMode s.duplicateMode
+  exact ⟨h1, h2, k1, k2, k3⟩
+
+/-- **`resolve_intermediate_ref`, exactly** (completes `C07_intermediate_ref_errors`): for a non-negative
+    value it appends EXACTLY `interRefDiags` — the one analysis error of the kind computed by
+    `interRefTarget`, labelled with the data's span, when the target does not exist, and NOTHING when it
+    does — changes nothing else, and returns no relation iff the target computation fails. -/
+theorem C07_intermediate_ref_exact (d : Loc InterData) (s : Col α) (hv : 0 ≤ d.val.val) :
+    (resolveInterRef d s).2.diags.toList = s.diags.toList ++ interRefDiags s.cur.content s.sections.length d ∧
+    (resolveInterRef d s).2 = { s with diags := (resolveInterRef d s).2.diags } ∧
+    ((resolveInterRef d s).1 = none ↔ ∃ kind, interRefTarget s.cur.content s.sections.length d.val = .error kind) ∧
+    (∀ rel, interRefTarget s.cur.content s.sections.length d.val = .ok rel →
+      interRefDiags s.cur.content s.sections.length d = []) ∧
+    (∀ kind, interRefTarget s.cur.content s.sections.length d.val = .error kind →
+      interRefDiags s.cur.content s.sections.length d = [⟨.error, .analysis, kind, [d.span]⟩]) := by
+  obtain ⟨h1, h2, h3⟩ := c07a_resolveInterRef_exact d s hv
+  refine ⟨h1, h2, h3, fun rel h => ?_, fun kind h => ?_⟩
+  · unfold interRefDiags; rw [h]
+  · unfold interRefDiags; rw [h]; rfl
+
+/-! non-vacuity: a plain component in the default modes gets no diagnostic from `resolve_reference`;
+    `&x` without a definition gets exactly `reference-not-found` -/
+example : refDiags C01_toyEnv 0 [] ['x'] Modifiers.empty ⟨0, 2⟩ ⟨1, 1⟩ .all .new = [] := by decide
+example : refDiags C01_toyEnv 0 [] ['x'] ⟨Modifiers.REF⟩ ⟨0, 3⟩ ⟨1, 2⟩ .all .new =
+    [⟨.error, .analysis, "reference-not-found", [⟨0, 3⟩]⟩] := by decide
 
 /-! ### Soundness, simplest shape -/
 
